@@ -58,6 +58,14 @@ def _split_long_branches(
         num_subbranches = 1
         split_branch = [branch]
         while length > max_branch_len:
+            if len(branch) // (num_subbranches + 1) < 2:
+                # Every subbranch needs at least two traced points.
+                warn(
+                    """Too few traced points to split further. Most likely your
+                     SWC reconstruction is not dense and some neighbouring traced
+                     points are farther than `max_branch_len` apart."""
+                )
+                break
             num_subbranches += 1
             split_branch = _split_branch_equally(branch, num_subbranches)
             lengths_of_subbranches = _compute_pathlengths(
